@@ -806,6 +806,16 @@ func (p *bprover) defFacts(s *factSet, goal dfact) {
 					y := p.lin(x.Y)
 					s.fs = append(s.fs, dfact{"0", n, 0}, dfact{n, y.n, y.k - 1})
 					push(y.n)
+					// the modulus is an int field that always equals the length of a slice field of the same record
+					if ld, ok := x.Y.(*ssa.UnOp); ok && ld.Op == token.MUL {
+						if fa, ok := ld.X.(*ssa.FieldAddr); ok {
+							if sf, ok := p.c.fieldLenAlias(fa.X.Type(), fieldName(fa)); ok {
+								ln := "len:" + canon(fa.X) + "." + sf
+								s.fs = append(s.fs, dfact{y.n, ln, -y.k}, dfact{ln, y.n, y.k})
+								push(ln)
+							}
+						}
+					}
 				}
 			case token.ADD:
 				// v = a + b with b >= 0 by construction: v >= a (no overflow assumed)
@@ -928,6 +938,33 @@ func (p *bprover) parityOf(n string, s *factSet, seen map[string]bool) (int, boo
 				return 0, false
 			}
 			return (pb + int((((base.k-k)%2)+2)%2)) % 2, true
+		}
+		// a slice-valued phi (rest = rest[2:] in a loop): the parity its incoming values agree on
+		if phi, ok := v.(*ssa.Phi); ok {
+			res := -1
+			for _, e := range phi.Edges {
+				l := p.lenOf(e)
+				pe, ok := p.parityOf(l.n, s, seen)
+				if !ok {
+					return 0, false
+				}
+				if pe == -1 {
+					if l.k%2 != 0 {
+						return 0, false
+					}
+					continue
+				}
+				val := (pe + int(((l.k%2)+2)%2)) % 2
+				if res == -1 {
+					res = val
+				} else if res != val {
+					return 0, false
+				}
+			}
+			if res == -1 {
+				return 0, false
+			}
+			return res, true
 		}
 		return 0, false
 	}
@@ -1184,10 +1221,16 @@ func (p *bprover) proveAtEnd(goal dfact, b *ssa.BasicBlock, extra *factSet, dept
 // ProveLE proves  x - y <= c  immediately before instruction `at`.
 func (p *bprover) ProveLE(x, y lt, c int64, at ssa.Instruction) bool {
 	goal := dfact{x.n, y.n, c - x.k + y.k}
-	// 0 <= (A - B) + k   is proved as   B - A <= k   (A, B arbitrary terms; no overflow for lengths/indices)
+	// 0 <= (A - B) + k   is proved as   B - A <= k   (A, B arbitrary terms; no overflow for lengths/indices);
+	// the difference may also have been tested as a value of its own (d := A - B; if d > 0 {..}): that is tried first
 	if goal.a == "0" {
 		if bo, ok := p.vals[goal.b].(*ssa.BinOp); ok && bo.Op == token.SUB {
 			if _, isC := constInt(bo.Y); !isC {
+				p.stack = map[string]bool{}
+				p.budget = 400
+				if p.prove(goal, at.Block(), &factSet{par: map[string]int{}}, 3) {
+					return true
+				}
 				a, b := p.lin(bo.X), p.lin(bo.Y)
 				goal = dfact{b.n, a.n, goal.c + a.k - b.k}
 			}
